@@ -89,11 +89,11 @@ DECOYS = {
     "query": [("?@%s", "decoy-at"), ("?u=x.%s/abc", "decoy-sub"), ("?u=%s/abc", "decoy-bare"), ("?u=http://%s/abc", "decoy-url")],
     "frag": [("#@%s", "decoy-at"), ("#x.%s/", "decoy-sub"), ("#%s", "decoy-bare")],
 }
-HOSTCLASSES = ("exact", "upper", "subdomain", "subdomain2", "upper-subdomain", "glued-label", "glued-label2", "foreign-suffix", "dot-replaced")
-HC_FLOOR = {"exact": "host-exact", "upper": "host-upper", "subdomain": "host-subdomain", "subdomain2": "host-subdomain", "upper-subdomain": "host-upper",
+HOSTCLASSES = ("exact", "upper", "subdomain", "subdomain2", "subdomain3", "upper-subdomain", "glued-label", "glued-label2", "foreign-suffix", "dot-replaced")
+HC_FLOOR = {"exact": "host-exact", "upper": "host-upper", "subdomain": "host-subdomain", "subdomain2": "host-subdomain", "subdomain3": "host-subdomain", "upper-subdomain": "host-upper",
             "glued-label": "host-glued-label", "glued-label2": "host-glued-label", "foreign-suffix": "host-foreign-suffix", "dot-replaced": "host-dot-replaced",
             "foreign": "host-foreign", "foreign-dotless": "host-foreign", "l-prefixed": "host-l-prefixed"}
-HC_MECH = {"subdomain2": "subdomain", "glued-label2": "glued-label", "upper-subdomain": "upper"}
+HC_MECH = {"subdomain2": "subdomain", "subdomain3": "subdomain", "glued-label2": "glued-label", "upper-subdomain": "upper"}
 
 
 def member(host, domset):
@@ -197,6 +197,8 @@ def host_of(dom, hc):
         return "www." + dom
     if hc == "subdomain2":
         return "a.b-c." + dom
+    if hc == "subdomain3":
+        return "my_shop.café." + dom  # labels a hostname may carry in the wild: underscore, non-ASCII
     if hc == "upper-subdomain":
         return ("M." + dom.upper()) if dom.isascii() else None
     if hc == "glued-label":
